@@ -25,7 +25,7 @@ REPLAY_DIR = os.path.join(EVID_DIR, 'replays')
 KNOWN_FILE = os.path.join(env.VERIF, 'known_findings.json')
 
 MAX_REPLAYS_PER_SIG = 2
-CALL_TIMEOUT_S = 30
+CALL_TIMEOUT_S = int(os.environ.get("VERIF_CALL_TIMEOUT_S", "90"))   # generous: 30 s fired 47 times in one C13 thorough run on a machine loaded threefold
 
 
 class CallTimeout(Exception):
